@@ -1,0 +1,250 @@
+//! Verification hooks: thin public wrappers around crate-private items, so that an
+//! out-of-crate harness can drive the real implementations. Compiled only with the
+//! `verif_hooks` feature; adds no behaviour.
+#![allow(missing_docs, clippy::missing_docs_in_private_items, unreachable_pub)]
+use std::{
+    collections::HashSet,
+    pin::Pin,
+    task::{Context, Poll},
+};
+
+use zksync_concurrency::{ctx, io};
+
+pub use crate::consensus::verif as consensus;
+pub use crate::gossip::verif as gossip;
+pub use crate::mux::verif as mux;
+
+/// `noise::bytes::Buffer`.
+pub struct ByteBuffer(pub(crate) crate::noise::bytes::Buffer);
+
+impl ByteBuffer {
+    pub fn new(capacity: usize) -> Self {
+        Self(crate::noise::bytes::Buffer::new(capacity))
+    }
+    pub fn len(&self) -> usize {
+        self.0.len()
+    }
+    pub fn capacity(&self) -> usize {
+        self.0.capacity()
+    }
+    pub fn push(&mut self, buf: &[u8]) -> usize {
+        self.0.push(buf)
+    }
+    pub fn as_mut_capacity(&mut self) -> &mut [u8] {
+        self.0.as_mut_capacity()
+    }
+    pub fn extend(&mut self, n: usize) {
+        self.0.extend(n)
+    }
+    pub fn as_slice(&self) -> &[u8] {
+        self.0.as_slice()
+    }
+    pub fn take(&mut self, n: usize) {
+        self.0.take(n)
+    }
+    pub fn prefix2(&self) -> [u8; 2] {
+        self.0.prefix()
+    }
+    pub fn set_prefix2(&mut self, p: [u8; 2]) {
+        self.0.set_prefix(p)
+    }
+    pub fn shift(&mut self) {
+        self.0.shift()
+    }
+    pub fn reset(&mut self) {
+        self.0.reset()
+    }
+}
+
+/// `noise::Stream<S>` over a caller supplied transport.
+pub struct NoiseStream<S>(pub(crate) crate::noise::Stream<S>);
+
+impl<S: io::AsyncRead + io::AsyncWrite + Unpin> NoiseStream<S> {
+    pub async fn client_handshake(ctx: &ctx::Ctx, stream: S) -> ctx::Result<Self> {
+        Ok(Self(
+            crate::noise::Stream::client_handshake(ctx, stream).await?,
+        ))
+    }
+    pub async fn server_handshake(ctx: &ctx::Ctx, stream: S) -> ctx::Result<Self> {
+        Ok(Self(
+            crate::noise::Stream::server_handshake(ctx, stream).await?,
+        ))
+    }
+    pub fn id(&self) -> [u8; 32] {
+        *self.0.id().as_bytes()
+    }
+    pub fn inner(&self) -> &S {
+        &self.0
+    }
+}
+
+impl<S: io::AsyncRead + io::AsyncWrite + Unpin> io::AsyncRead for NoiseStream<S> {
+    fn poll_read(
+        mut self: Pin<&mut Self>,
+        cx: &mut Context<'_>,
+        buf: &mut io::ReadBuf<'_>,
+    ) -> Poll<io::Result<()>> {
+        Pin::new(&mut self.0).poll_read(cx, buf)
+    }
+}
+
+impl<S: io::AsyncRead + io::AsyncWrite + Unpin> io::AsyncWrite for NoiseStream<S> {
+    fn poll_write(
+        mut self: Pin<&mut Self>,
+        cx: &mut Context<'_>,
+        buf: &[u8],
+    ) -> Poll<io::Result<usize>> {
+        Pin::new(&mut self.0).poll_write(cx, buf)
+    }
+    fn poll_flush(mut self: Pin<&mut Self>, cx: &mut Context<'_>) -> Poll<io::Result<()>> {
+        Pin::new(&mut self.0).poll_flush(cx)
+    }
+    fn poll_shutdown(mut self: Pin<&mut Self>, cx: &mut Context<'_>) -> Poll<io::Result<()>> {
+        Pin::new(&mut self.0).poll_shutdown(cx)
+    }
+}
+
+/// An encrypted session over real TCP (`noise::Stream<MeteredStream>`), as the
+/// handshake functions require it.
+pub struct TcpNoise(pub(crate) crate::noise::Stream);
+
+impl TcpNoise {
+    /// Client side of `preface::connect` (without the endpoint message).
+    pub async fn connect(ctx: &ctx::Ctx, addr: std::net::SocketAddr) -> ctx::Result<Self> {
+        let stream = crate::metrics::MeteredStream::connect(ctx, addr).await?;
+        Ok(Self(
+            crate::noise::Stream::client_handshake(ctx, stream).await?,
+        ))
+    }
+    /// Server side: accepts one connection on the listener and runs the noise handshake.
+    pub async fn accept(
+        ctx: &ctx::Ctx,
+        listener: &mut zksync_concurrency::net::tcp::Listener,
+    ) -> ctx::Result<Self> {
+        let stream = crate::metrics::MeteredStream::accept(ctx, listener).await?;
+        Ok(Self(
+            crate::noise::Stream::server_handshake(ctx, stream).await?,
+        ))
+    }
+    pub fn id(&self) -> [u8; 32] {
+        *self.0.id().as_bytes()
+    }
+    pub async fn send_proto<T: zksync_protobuf::ProtoFmt>(
+        &mut self,
+        ctx: &ctx::Ctx,
+        msg: &T,
+    ) -> ctx::Result<()> {
+        crate::frame::send_proto(ctx, &mut self.0, msg).await
+    }
+    pub async fn recv_proto<T: zksync_protobuf::ProtoFmt>(
+        &mut self,
+        ctx: &ctx::Ctx,
+        max_size: usize,
+    ) -> ctx::Result<T> {
+        crate::frame::recv_proto(ctx, &mut self.0, max_size).await
+    }
+}
+
+/// `frame::send_proto` / `frame::recv_proto`.
+pub async fn send_proto<T: zksync_protobuf::ProtoFmt, S: io::AsyncWrite + Unpin>(
+    ctx: &ctx::Ctx,
+    stream: &mut S,
+    msg: &T,
+) -> ctx::Result<()> {
+    crate::frame::send_proto(ctx, stream, msg).await
+}
+
+pub async fn recv_proto<T: zksync_protobuf::ProtoFmt, S: io::AsyncRead + Unpin>(
+    ctx: &ctx::Ctx,
+    stream: &mut S,
+    max_size: usize,
+) -> ctx::Result<T> {
+    crate::frame::recv_proto(ctx, stream, max_size).await
+}
+
+/// Receives a raw length-prefixed frame exactly as `frame::recv_proto` does, decoding it as
+/// the crate-private message type named `kind`; returns the canonical re-encoding.
+pub async fn recv_named<S: io::AsyncRead + Unpin>(
+    ctx: &ctx::Ctx,
+    stream: &mut S,
+    kind: &str,
+    max_size: usize,
+) -> ctx::Result<Vec<u8>> {
+    use zksync_protobuf::encode;
+    Ok(match kind {
+        "preface.Encryption" => encode(
+            &crate::frame::recv_proto::<crate::preface::Encryption, S>(ctx, stream, max_size)
+                .await?,
+        ),
+        "preface.Endpoint" => encode(
+            &crate::frame::recv_proto::<crate::preface::Endpoint, S>(ctx, stream, max_size)
+                .await?,
+        ),
+        _ => return Err(anyhow::format_err!("unknown kind {kind}").into()),
+    })
+}
+
+/// Decodes `bytes` as the crate-private message type named `kind` and returns its
+/// canonical re-encoding (decode totality / round trip of private wire types).
+pub fn decode_named(kind: &str, bytes: &[u8]) -> anyhow::Result<Vec<u8>> {
+    use zksync_protobuf::{decode, encode};
+
+    use crate::rpc;
+    Ok(match kind {
+        "preface.Encryption" => encode(&decode::<crate::preface::Encryption>(bytes)?),
+        "preface.Endpoint" => encode(&decode::<crate::preface::Endpoint>(bytes)?),
+        "mux.Handshake" => mux::decode_handshake(bytes)?,
+        "gossip.Handshake" => gossip::decode_handshake(bytes)?,
+        "consensus.Handshake" => consensus::decode_handshake(bytes)?,
+        "rpc.consensus.Req" => encode(&decode::<rpc::consensus::Req>(bytes)?),
+        "rpc.consensus.Resp" => encode(&decode::<rpc::consensus::Resp>(bytes)?),
+        "rpc.get_block.Req" => encode(&decode::<rpc::get_block::Req>(bytes)?),
+        "rpc.get_block.Resp" => encode(&decode::<rpc::get_block::Resp>(bytes)?),
+        "rpc.push_block_store_state.Req" => {
+            encode(&decode::<rpc::push_block_store_state::Req>(bytes)?)
+        }
+        "rpc.push_validator_addrs.Req" => {
+            encode(&decode::<rpc::push_validator_addrs::Req>(bytes)?)
+        }
+        "rpc.push_tx.Req" => encode(&decode::<rpc::push_tx::Req>(bytes)?),
+        "rpc.ping.Req" => encode(&decode::<rpc::ping::Req>(bytes)?),
+        "rpc.ping.Resp" => encode(&decode::<rpc::ping::Resp>(bytes)?),
+        _ => anyhow::bail!("unknown kind {kind}"),
+    })
+}
+
+/// Names accepted by `decode_named`.
+pub const NAMED_KINDS: &[&str] = &[
+    "preface.Encryption",
+    "preface.Endpoint",
+    "mux.Handshake",
+    "gossip.Handshake",
+    "consensus.Handshake",
+    "rpc.consensus.Req",
+    "rpc.consensus.Resp",
+    "rpc.get_block.Req",
+    "rpc.get_block.Resp",
+    "rpc.push_block_store_state.Req",
+    "rpc.push_validator_addrs.Req",
+    "rpc.push_tx.Req",
+    "rpc.ping.Req",
+    "rpc.ping.Resp",
+];
+
+/// `pool::PoolWatch<K, ()>`.
+pub struct Pool<K>(pub(crate) crate::pool::PoolWatch<K, ()>);
+
+impl<K: std::hash::Hash + Eq + Clone> Pool<K> {
+    pub fn new(allowed: HashSet<K>, extra_limit: usize) -> Self {
+        Self(crate::pool::PoolWatch::new(allowed, extra_limit))
+    }
+    pub async fn insert(&self, k: K) -> anyhow::Result<()> {
+        self.0.insert(k, ()).await
+    }
+    pub async fn remove(&self, k: &K) {
+        self.0.remove(k).await
+    }
+    pub fn current(&self) -> Vec<K> {
+        self.0.current().keys().cloned().collect()
+    }
+}
